@@ -17,3 +17,13 @@ CHECKS['C20'] = dict(
          '(in, [], attribute, holder.value/.default, _asdict) are compared with an independent model.',
     note='Key/value universe is small and fixed; duplicate flag values for one key are not in the alphabet '
          '(the statement does not order them); --config-file is not exercised.')
+
+CHECKS['C16'] = dict(
+    engine='enum', level='model_checking', design_ref='DESIGN.md#c16',
+    technique='explicit-state exploration of all device response scripts on the real FastbootCommands vs reference automaton',
+    text='All response scripts over a 10/14-symbol alphabet up to depth 5-8 (extended exactly while the host still waits) '
+         'for every FastbootCommands method, 8-12 image sizes around chunk multiples, 4 download entry points and '
+         '3 progress-callback modes are executed on the real code over a scripted bootloader and compared with an '
+         'independent automaton (packets, INFO order, return/exception, bytes sent, chunk bound, progress).',
+    note='Chunk size fixed to 1 KiB via the module constant; ASCII images; erase() return value and the exact '
+         'exception class for malformed DATA sizes are not compared (the statement does not fix them).')
